@@ -43,6 +43,7 @@ func (u unsupportedErr) Error() string { return u.msg }
 
 // VC holds the verification condition of one function under contract.
 type VC struct {
+	implVars map[string]specVal // names of the implemented interface contract, bound to this method's parameters
 	eng           *Engine
 	top           *ssa.Function
 	topC          *Contract
